@@ -3,3 +3,5 @@ import RustCcModel.Properties.C13
 #print axioms RustCc.C13.unwrap_ok_of_unique
 #print axioms RustCc.C13.unwrapped_spec
 #print axioms RustCc.C13.unwrapped_events
+#print axioms RustCc.C13.unwrapped_spec_reachable
+#print axioms RustCc.C13.unique_not_owned
